@@ -227,8 +227,16 @@ func c10Parent(c *core.Ctx) {
 				real = append(real, u)
 			}
 		}
+		bound := map[string]bool{}
+		if b != nil {
+			for _, n := range b.Names {
+				bound[n] = true
+			}
+		}
 		if dup != "" || len(real) > 0 {
 			c.Violated("syncRoute group/kind", at(c, srcCall), fmt.Sprintf("the resolution also depends on %v %s", real, dup))
+		} else if !bound["gne"] || !bound["kne"] {
+			c.Violated("syncRoute group/kind", at(c, srcCall), "the resolution of the parent does not depend on the group and kind tests: a parentRef of a foreign group or kind is resolved as a Gateway")
 		} else {
 			ok, diff, _ := compareIgnoringLoop(t, cond, b, func(v map[string]bool) bool { return !v["gne"] && !v["kne"] })
 			c.Check(ok, "syncRoute group/kind", at(c, srcCall), "a parent is resolved iff its group and kind are the Gateway API Gateway", diff)
